@@ -65,7 +65,9 @@ def spec_files(draw, tier):
     if draw(st.integers(0, 5)) == 0:
         # a type imported from a module (existing or not) and a variable of that type whose field is used below
         mod, typ = draw(st.sampled_from([('fractions', 'Fraction'), ('math', 'Foo'), ('nosuchmod', 'Foo'), ('collections', 'OrderedDict'),
-                                          ('fractions', 'Fraction'), ('os', 'path'), ('rtamt', 'Nope')]))
+                                          ('fractions', 'Fraction'), ('os', 'path'), ('rtamt', 'Nope'),
+                                          # names that are callable but not types: creating the variable must not call them
+                                          ('sys', 'exit'), ('os', 'getcwd'), ('math', 'sqrt'), ('fractions', 'gcd')]))
         toks += ['from', mod, 'import', typ]
         typed = typ
     for v in vs:
@@ -193,7 +195,7 @@ def mutated(draw, tier):
             # the empty text, white space only, a comment only
             toks = draw(st.sampled_from([[], [' '], ['\n'], ['// nothing\n'], ['/* nothing */'], ['\t', '\n']]))
         elif kind == 'weird-literal':
-            toks[i] = draw(st.sampled_from(['0x1F', '0b101', '1_000', '3.', '.5', '1e3', '1E-2', '007', '1e', '0x', '9' * 25, '1e400']))
+            toks[i] = draw(st.sampled_from(['0x1F', '0b101', '1_000', '3.', '.5', '1e3', '1E-2', '007', '1e', '0x', '9' * 25, '1e400', '0x' + 'F' * 256, '0b' + '1' * 1100, '9' * 400, '1__0.5']))
         elif kind == 'undeclared-bound':
             for j, t in enumerate(toks):
                 if t == '[' and j + 3 < len(toks):
@@ -275,6 +277,8 @@ def check(case):
                 return DISCARD('recursion', labels)
             except Exception as e:  # noqa
                 res = exc_outcome(e)
+            except SystemExit as e:
+                res = ('exc', 'SystemExit', False, 'parse() called sys.exit(%r)' % (e.code,), 'syntax/ast/parser/abstract_ast_parser.py:create_var_from_name')
         acc, toks, illegal = lang.accepts(text)
         if res[0] != 'ok':
             if not res[2]:
